@@ -7,7 +7,8 @@ Does NOT decide msgspec itself.
 import ast
 
 from sa.core import rule, AnalysisError
-from sa.pyindex import get_module, dotted, src, kwarg, calls_in, walk_no_nested
+from sa.pyindex import (get_module, dotted, src, kwarg, calls_in, walk_no_nested,
+                        all_py_files, fold, Unfoldable)
 from sa import flow
 from rules._pytd_schema import (get_schema, serialisation_instances, reaching,
                                 defs_at, stored_names, PYTD, NODE, PICKLE,
@@ -29,7 +30,19 @@ EXPLANATION = (
     "cache of every class that has one; R12.4 the encoder is deterministic, "
     "the gzip header constant, the dependency lists sorted; R12.5 each "
     "decoder is typed with the structure its loader promises and _Load turns "
-    "I/O, gzip and msgspec failures into LoadPickleError.  Necessary "
+    "I/O, gzip and msgspec failures into LoadPickleError; R12.6 at every "
+    "pytd.Literal(...) construction site of the package (non-test) the "
+    "expression stored in `value` is never *definitely* of a type outside "
+    "the field's declared union (int | str | bool | TypeU | Constant, read "
+    "from the schema): a small intra-procedural inference (literals, "
+    "repr/str/f-strings -> str, pytd constructors -> that node class, names "
+    "through reaching definitions, isinstance/is-None/truthiness guards on "
+    "the path, argument-less methods of the same class through their "
+    "returns, and the type-tag invariant of pyi.types.Pyval: `type` names "
+    "type(`value`) because Pyval.from_const builds "
+    "cls(type(node.value).__name__, node.value), over the payload types of "
+    "ast.Constant minus what the from_const call sites exclude) yields the "
+    "types the argument can have; unknown is never reported.  Necessary "
     "conditions only: the behaviour of msgspec's encoder/decoder and the "
     "visitors' bodies beyond the named statements are not decided.")
 ASSUMPTIONS = [
@@ -42,6 +55,14 @@ ASSUMPTIONS = [
     "identity",
     "ClassType nodes are mutated in place by ClearClassPointers and shared by "
     "the copies later visitors make",
+    "R12.6: msgspec.Struct construction does not validate field types; an "
+    "ast.Constant payload is one of bool, NoneType, int, float, complex, "
+    "str, bytes, ellipsis (ast._const_node_type_names of the host CPython); "
+    "instances of Pyval built directly (Pyval('str', ...), negated()) keep "
+    "the tag/value agreement; other Node constructors' arguments are not "
+    "typed by a rule yet (an experiment over all 714 constructor arguments "
+    "found, besides Literal.value, only TypeDeclUnit(name=None) in "
+    "pyi/definitions.py, which is replaced before the unit is used)",
     "reference exception hierarchy: gzip.BadGzipFile < OSError; "
     "msgspec.ValidationError < msgspec.DecodeError < msgspec.MsgspecError",
 ]
@@ -591,6 +612,430 @@ def r12_5(ctx):
               {"caught": sorted(k for k in caught if k)})
 
 
+# -- R12.6 ------------------------------------------------------------------------
+# Constructor-argument typing: what is *stored* in a field must be of a type
+# the field declares (msgspec does not validate on construction, it encodes
+# whatever it finds and fails - or changes the value - on decoding).
+
+_UNK = (frozenset(), True)
+_STR_FUNCS = {"repr", "str", "ascii", "chr", "hex", "oct", "bin", "format"}
+_STR_METHODS = {"format", "join", "decode", "lower", "upper", "strip", "lstrip",
+                "rstrip", "replace", "removeprefix", "removesuffix", "title"}
+_FUNC_TYPES = {"int": "int", "len": "int", "ord": "int", "hash": "int", "id": "int",
+               "bool": "bool", "isinstance": "bool", "callable": "bool",
+               "float": "float", "complex": "complex", "bytes": "bytes",
+               "tuple": "tuple", "list": "list", "set": "set", "frozenset": "frozenset",
+               "dict": "dict", "sorted": "list"}
+_ISINSTANCE = {"int": {"int", "bool"}, "float": {"float"}, "complex": {"complex"},
+               "str": {"str"}, "bytes": {"bytes"}, "bool": {"bool"},
+               "tuple": {"tuple"}, "list": {"list"}, "dict": {"dict"},
+               "set": {"set"}, "frozenset": {"frozenset"}}
+_ATOM_ADMITS = {"int": {"int", "bool"}, "str": {"str"}, "bool": {"bool"},
+                "float": {"float", "int", "bool"}, "bytes": {"bytes"},
+                "None": {"NoneType"}}
+
+
+def _const_type_universe():
+  """Type names an ast.Constant payload can have (CPython reference table)."""
+  tab = getattr(ast, "_const_node_type_names", None)
+  if tab:
+    return frozenset(t.__name__ for t in tab)
+  return frozenset({"bool", "NoneType", "int", "float", "complex", "str", "bytes",
+                    "ellipsis"})
+
+
+def _u(a, b):
+  return (a[0] | b[0], a[1] or b[1])
+
+
+def _conjuncts(test, pol):
+  """Atomic (test, polarity) facts implied by `test` having truth value pol."""
+  while isinstance(test, ast.UnaryOp) and isinstance(test.op, ast.Not):
+    test, pol = test.operand, not pol
+  if isinstance(test, ast.BoolOp):
+    if (isinstance(test.op, ast.And) and pol) or (isinstance(test.op, ast.Or) and not pol):
+      out = []
+      for v in test.values:
+        out.extend(_conjuncts(v, pol))
+      return out
+    return []
+  return [(test, pol)]
+
+
+class _ArgTypes:
+  """Small intra-procedural inference: the set of run-time types an expression
+  can definitely have (plus an 'anything else' flag).  Never guesses."""
+
+  def __init__(self, ctx, mod, sch):
+    self.ctx, self.mod, self.sch = ctx, mod, sch
+    self._rd = {}
+    self._models = {}
+
+  # -- helpers --------------------------------------------------------------
+  def node_class(self, func):
+    d = dotted(func)
+    if d is None:
+      return None
+    head, _, last = d.rpartition(".")
+    if last not in self.sch.classes or self.sch.is_abstract(last):
+      return None
+    imp = self.mod.imports
+    if self.mod.rel == PYTD and not head:
+      return last
+    if head and imp.get(head, "").endswith("pytd.pytd"):
+      return last
+    if not head and imp.get(last, "").endswith(f"pytd.pytd.{last}"):
+      return last
+    if head == "pytd" and imp.get("pytd", "").endswith(".pytd"):
+      return last
+    return None
+
+  def rd(self, fn):
+    if fn not in self._rd:
+      self._rd[fn] = reaching(fn)
+    return self._rd[fn]
+
+  def guards(self, stmt):
+    out = []
+    for t, p in flow.guards(self.mod.parent, stmt):
+      out.extend(_conjuncts(t, p))
+    return out
+
+  def narrow(self, expr, res, stmt):
+    key = src(expr)
+    types, unk = res
+    for t, pol in self.guards(stmt):
+      if isinstance(t, ast.Call) and dotted(t.func) == "isinstance" and \
+          len(t.args) == 2 and src(t.args[0]) == key:
+        ks = t.args[1].elts if isinstance(t.args[1], ast.Tuple) else [t.args[1]]
+        names = [dotted(k) for k in ks]
+        if any(n not in _ISINSTANCE for n in names):
+          if pol:
+            # narrowed to a class we do not model: nothing definite remains
+            cls = [self.node_class(k) for k in ks]
+            if all(cls):
+              types, unk = frozenset(f"node:{c}" for c in cls), False
+            else:
+              types, unk = frozenset(), True
+          continue
+        ts = frozenset().union(*(_ISINSTANCE[n] for n in names))
+        if pol:
+          types, unk = (ts if unk else types & ts), False
+        else:
+          types = types - ts
+      elif isinstance(t, ast.Compare) and len(t.ops) == 1 and \
+          isinstance(t.ops[0], (ast.Is, ast.IsNot)) and src(t.left) == key and \
+          isinstance(t.comparators[0], ast.Constant) and t.comparators[0].value is None:
+        is_none = pol == isinstance(t.ops[0], ast.Is)
+        if is_none:
+          types, unk = frozenset({"NoneType"}), False
+        else:
+          types = types - {"NoneType"}
+      elif src(t) == key and pol:
+        types = types - {"NoneType"}   # truthy: not None
+    return types, unk
+
+  # -- the inference ----------------------------------------------------------
+  def infer(self, expr, stmt, depth=0):
+    fn = self.mod.enclosing_function(stmt)
+    if depth > 6:
+      return _UNK
+    res = self._infer(expr, stmt, fn, depth)
+    return self.narrow(expr, res, stmt)
+
+  def _infer(self, expr, stmt, fn, depth):
+    one = lambda t: (frozenset({t}), False)
+    if isinstance(expr, ast.Constant):
+      return one(type(expr.value).__name__)
+    if isinstance(expr, ast.JoinedStr):
+      return one("str")
+    if isinstance(expr, (ast.Tuple, ast.List, ast.Set, ast.Dict)):
+      return one(type(expr).__name__.lower())
+    if isinstance(expr, (ast.ListComp, ast.SetComp, ast.DictComp)):
+      return one({"ListComp": "list", "SetComp": "set", "DictComp": "dict"}[type(expr).__name__])
+    if isinstance(expr, ast.NamedExpr):
+      return self.infer(expr.value, stmt, depth + 1)
+    if isinstance(expr, ast.IfExp):
+      return _u(self.infer(expr.body, stmt, depth + 1), self.infer(expr.orelse, stmt, depth + 1))
+    if isinstance(expr, ast.BoolOp):
+      acc = (frozenset(), False)
+      for v in expr.values:
+        acc = _u(acc, self.infer(v, stmt, depth + 1))
+      return acc
+    if isinstance(expr, ast.UnaryOp):
+      if isinstance(expr.op, ast.Not):
+        return one("bool")
+      t, unk = self.infer(expr.operand, stmt, depth + 1)
+      return frozenset("int" if x == "bool" else x for x in t), unk
+    if isinstance(expr, ast.BinOp):
+      if isinstance(expr.op, ast.Mod) and self.infer(expr.left, stmt, depth + 1) == one("str"):
+        return one("str")
+      l, r = self.infer(expr.left, stmt, depth + 1), self.infer(expr.right, stmt, depth + 1)
+      if isinstance(expr.op, ast.Add) and l == r and not l[1] and len(l[0]) == 1 and \
+          next(iter(l[0])) in ("str", "bytes", "tuple", "list"):
+        return l
+      return _UNK
+    if isinstance(expr, ast.Compare):
+      return one("bool") if all(isinstance(o, (ast.Is, ast.IsNot, ast.In, ast.NotIn))
+                                for o in expr.ops) else _UNK
+    if isinstance(expr, ast.Call):
+      return self._call(expr, stmt, fn, depth)
+    if isinstance(expr, ast.Name):
+      return self._name(expr, stmt, fn, depth)
+    if isinstance(expr, ast.Attribute):
+      return self._attribute(expr, stmt, fn)
+    return _UNK
+
+  def _call(self, call, stmt, fn, depth):
+    one = lambda t: (frozenset({t}), False)
+    d = dotted(call.func)
+    if d in _STR_FUNCS:
+      return one("str")
+    if d in _FUNC_TYPES:
+      return one(_FUNC_TYPES[d])
+    nc = self.node_class(call.func)
+    if nc:
+      return one(f"node:{nc}")
+    if isinstance(call.func, ast.Attribute):
+      if call.func.attr in _STR_METHODS and isinstance(
+          call.func.value, (ast.Constant, ast.JoinedStr)):
+        return one("str")
+      if call.func.attr == "encode":
+        return one("bytes") if self.infer(call.func.value, stmt, depth + 1) == one("str") else _UNK
+      # a method of the enclosing class: the union of what it returns
+      recv = call.func.value
+      meth = fn
+      while meth is not None and not isinstance(self.mod.parent.get(meth), ast.ClassDef):
+        meth = self.mod.enclosing_function(meth)
+      if isinstance(recv, ast.Name) and meth is not None and meth.args.args and \
+          recv.id == meth.args.args[0].arg and not isinstance(meth, ast.Lambda):
+        cls = self.mod.parent[meth]
+        target = [s for s in cls.body if isinstance(s, ast.FunctionDef)
+                  and s.name == call.func.attr]
+        if len(target) == 1 and not target[0].decorator_list and depth < 3 \
+            and not call.args and not call.keywords:
+          acc = (frozenset(), False)
+          rets = [n for n in ast.walk(target[0]) if isinstance(n, ast.Return)
+                  and self.mod.enclosing_function(n) is target[0]]
+          if not rets or not flow.terminates(target[0].body):
+            acc = _u(acc, one("NoneType"))
+          for r in rets:
+            acc = _u(acc, one("NoneType") if r.value is None
+                     else self.infer(r.value, r, depth + 2))
+          return acc
+    return _UNK
+
+  def _name(self, name, stmt, fn, depth):
+    if fn is None or isinstance(fn, ast.Lambda):
+      return _UNK
+    defs = defs_at(self.rd(fn), stmt, name.id)
+    if not defs:
+      for a in fn.args.posonlyargs + fn.args.args + fn.args.kwonlyargs:
+        if a.arg == name.id and a.annotation is not None and \
+            dotted(a.annotation) in _ISINSTANCE and dotted(a.annotation) != "int":
+          return (frozenset(_ISINSTANCE[dotted(a.annotation)]), False)
+      return _UNK
+    acc = (frozenset(), False)
+    for d in defs:
+      val = None
+      if isinstance(d, ast.Assign):
+        for t in d.targets:
+          if isinstance(t, ast.Name) and t.id == name.id:
+            val = d.value
+      elif isinstance(d, ast.AnnAssign) and isinstance(d.target, ast.Name) \
+          and d.target.id == name.id:
+        val = d.value
+      if val is None or d is stmt:
+        return _UNK
+      acc = _u(acc, self.infer(val, d, depth + 1))
+    return acc
+
+  # -- type-tagged values -------------------------------------------------------
+  def _attribute(self, expr, stmt, fn):
+    meth = fn
+    while meth is not None and not isinstance(self.mod.parent.get(meth), ast.ClassDef):
+      meth = self.mod.enclosing_function(meth)
+    if meth is None or isinstance(meth, ast.Lambda) or not meth.args.args or \
+        not isinstance(expr.value, ast.Name) or expr.value.id != meth.args.args[0].arg:
+      return _UNK
+    model = self.tag_model(self.mod.parent[meth])
+    if model is None or expr.attr != model["value"]:
+      return _UNK
+    tags = set(model["universe"])
+    tag_expr = f"{expr.value.id}.{model['tag']}"
+    for t, pol in self.guards(stmt):
+      if not (isinstance(t, ast.Compare) and len(t.ops) == 1 and src(t.left) == tag_expr):
+        continue
+      op, rhs = t.ops[0], t.comparators[0]
+      try:
+        val = fold(rhs, mod=self.mod)
+      except Unfoldable:
+        continue
+      if isinstance(op, (ast.Eq, ast.NotEq)) and isinstance(val, str):
+        vals, positive = {val}, isinstance(op, ast.Eq)
+      elif isinstance(op, (ast.In, ast.NotIn)) and isinstance(val, (tuple, list, set, frozenset)):
+        vals, positive = set(val), isinstance(op, ast.In)
+      else:
+        continue
+      if positive == pol:
+        tags &= vals
+      else:
+        tags -= vals
+    return (frozenset(tags), False)
+
+  def tag_model(self, cls):
+    """{tag, value, universe} when `cls` is built by `cls(type(E).__name__, E, ..)`
+    from an ast.Constant payload: field <tag> then names type(<value>) exactly."""
+    if cls in self._models:
+      return self._models[cls]
+    model = None
+    fields = [s.target.id for s in cls.body
+              if isinstance(s, ast.AnnAssign) and isinstance(s.target, ast.Name)]
+    for m in cls.body:
+      if not isinstance(m, ast.FunctionDef) or len(m.args.args) != 2:
+        continue
+      if not any(dotted(d) == "classmethod" for d in m.decorator_list):
+        continue
+      me, p = m.args.args[0].arg, m.args.args[1]
+      ann = dotted(p.annotation) if p.annotation is not None else None
+      if ann is None:
+        continue
+      head, _, last = ann.rpartition(".")
+      if last != "Constant" or self.mod.imports.get(head, head) != "ast":
+        continue
+      for r in ast.walk(m):
+        if isinstance(r, ast.Return) and isinstance(r.value, ast.Call) and \
+            dotted(r.value.func) in (me, cls.name) and len(r.value.args) >= 2 and \
+            len(fields) >= 2:
+          a0, a1 = r.value.args[0], r.value.args[1]
+          if src(a0) == f"type({src(a1)}).__name__" and src(a1) == f"{p.arg}.value":
+            model = {"tag": fields[0], "value": fields[1], "ctor": m.name,
+                     "universe": self._universe_at_call_sites(cls.name, m.name)}
+    self._models[cls] = model
+    return model
+
+  def _universe_at_call_sites(self, clsname, ctor):
+    """Constant payload types that reach the tagging constructor: the CPython
+    table, minus what each call site has excluded on its path."""
+    full = _const_type_universe()
+    acc, sites = set(), 0
+    d = self.mod.rel.rsplit("/", 1)[0] + "/"
+    for rel in all_py_files(self.ctx):
+      if not rel.startswith(d) or rel.endswith("_test.py"):
+        continue
+      if f"{clsname}.{ctor}" not in self.ctx.read(rel):
+        continue
+      m = get_module(self.ctx, rel)
+      for c in calls_in(m.tree):
+        if not (dotted(c.func) or "").endswith(f"{clsname}.{ctor}") or len(c.args) != 1:
+          continue
+        sites += 1
+        here = set(full)
+        payload = f"{src(c.args[0])}.value"
+        for t, pol in flow.guards(m.parent, m.enclosing_stmt(c)):
+          for t2, p2 in _conjuncts(t, pol):
+            if isinstance(t2, ast.Compare) and len(t2.ops) == 1 and src(t2.left) == payload \
+                and isinstance(t2.ops[0], (ast.Is, ast.IsNot)):
+              rhs = src(t2.comparators[0])
+              which = {"Ellipsis": "ellipsis", "...": "ellipsis", "None": "NoneType"}.get(rhs)
+              if which:
+                is_it = p2 == isinstance(t2.ops[0], ast.Is)
+                here = {which} if is_it else here - {which}
+            elif isinstance(t2, ast.Call) and dotted(t2.func) == "isinstance" and \
+                len(t2.args) == 2 and src(t2.args[0]) == payload:
+              ks = t2.args[1].elts if isinstance(t2.args[1], ast.Tuple) else [t2.args[1]]
+              names = [dotted(k) for k in ks]
+              if all(n in _ISINSTANCE for n in names):
+                ts = set().union(*(_ISINSTANCE[n] for n in names))
+                here = here & ts if p2 else here - ts
+        acc |= here
+    return frozenset(acc) if sites else full
+
+
+def _field_admits(sch, ann):
+  """(set of admitted type names, open) for a field annotation."""
+  members, atoms = sch.expand(ann)
+  if atoms & {"Any", "object"}:
+    return set(), True
+  out = {f"node:{m}" for m in members}
+  for m in list(members):
+    out |= {f"node:{s}" for s in sch.concrete_subclasses(m)}
+  for a in atoms:
+    if a not in _ATOM_ADMITS:
+      return set(), True
+    out |= _ATOM_ADMITS[a]
+  return out, False
+
+
+def _is_testfile(rel):
+  base = rel.rsplit("/", 1)[-1]
+  return base.endswith("_test.py") or base.startswith("test_") or "/tests/" in rel
+
+
+@rule("R12.6", "C12", floor=6)
+def r12_6(ctx):
+  """What is stored in pytd.Literal.value is of a type the field declares."""
+  sch = get_schema(ctx)
+  target, field = "Literal", "value"
+  if target not in sch.classes or field not in sch.fields(target):
+    raise AnalysisError("pytd.Literal.value not found in the schema")
+  ann = sch.fields(target)[field][0]
+  allowed, open_ = _field_admits(sch, ann)
+  if open_:
+    raise AnalysisError(f"pytd.Literal.value is declared {src(ann)}: nothing to decide")
+  pos = list(sch.fields(target)).index(field)
+  n = 0
+  for rel in all_py_files(ctx):
+    if _is_testfile(rel) or f"{target}(" not in ctx.read(rel):
+      continue
+    mod = get_module(ctx, rel)
+    inf = _ArgTypes(ctx, mod, sch)
+    for call in calls_in(mod.tree):
+      if inf.node_class(call.func) != target:
+        continue
+      arg = kwarg(call, field)
+      if arg is None and len(call.args) > pos and not any(
+          isinstance(a, ast.Starred) for a in call.args):
+        arg = call.args[pos]
+      if arg is None:
+        raise AnalysisError(f"{rel}:{call.lineno}: pytd.Literal(...) without a "
+                            "recognisable `value` argument")
+      stmt = mod.enclosing_stmt(call)
+      fn = mod.enclosing_function(call)
+      types, unk = inf.infer(arg, stmt)
+      outside = sorted(t for t in types if t not in allowed)
+      qual = _qualname(mod, call)
+      base = f"{rel.removeprefix('pytype/')}:{qual}:Literal.value<-{src(arg)[:40]}"
+      facts = {"argument": src(arg), "can_be": sorted(types), "or_unknown": unk,
+               "declared": src(ann)}
+      n += 1
+      if outside:
+        ctx.bad(f"{base}:outside={','.join(outside)}", rel, call.lineno,
+                f"`{src(arg)}` stored in pytd.Literal.value can be "
+                f"{' / '.join(outside)} here, but the field is declared "
+                f"{src(ann)}: msgspec does not validate on construction, so the "
+                "stub is built and printed, but the serialised stub cannot be "
+                "encoded or decoded again", facts)
+      else:
+        ctx.ok(base, rel, call.lineno, facts)
+  if n == 0:
+    raise AnalysisError("no pytd.Literal(...) construction site found")
+
+
+def _qualname(mod, node):
+  parts = []
+  cur = node
+  while cur in mod.parent:
+    cur = mod.parent[cur]
+    if isinstance(cur, (ast.FunctionDef, ast.AsyncFunctionDef, ast.ClassDef)):
+      parts.append(cur.name)
+  return ".".join(reversed(parts)) or "<module>"
+
+
+PYI_TYPES = "pytype/pyi/types.py"
+_FLOAT_ARM = ("    elif self.type == \"float\":\n"
+              "      raise ParseError(f\"Invalid type `float` in Literal[{self.value}].\")\n")
+
 VARIANTS = [
     # -- R12.1 -----------------------------------------------------------------
     {"name": "field-admits-only-generic-base", "rule": "R12.1", "file": PYTD, "expect": "fire",
@@ -728,4 +1173,36 @@ VARIANTS = [
     {"name": "twin-decoder-type-positional", "rule": "R12.5", "file": PICKLE, "expect": "silent",
      "old": "AstDecoder = msgspec.msgpack.Decoder(type=serialize_ast.SerializableAst)",
      "new": "AstDecoder = msgspec.msgpack.Decoder(serialize_ast.SerializableAst)"},
+    # -- R12.6 (the `twin-` variants also reject complex literals, the defect
+    # the rule reports on the reference tree, so that they are silent there)
+    {"name": "seeded-C12-m2", "rule": "R12.6", "patch": "seeded/C12-m2/patch.diff",
+     "expect": "fire"},
+    {"name": "output-stores-raw-str-or-bytes-literal", "rule": "R12.6",
+     "file": "pytype/output.py", "expect": "fire",
+     "old": "        value = repr(v.value.pyval)\n", "new": "        value = v.value.pyval\n"},
+    {"name": "typeddict-total-literal-none", "rule": "R12.6", "file": "pytype/output.py",
+     "expect": "fire",
+     "old": 'keywords.append(("total", pytd.Literal(False)))',
+     "new": 'keywords.append(("total", pytd.Literal(None)))'},
+    {"name": "float-literals-let-through", "rule": "R12.6", "file": PYI_TYPES, "expect": "fire",
+     "old": _FLOAT_ARM, "new": "    elif self.type == \"complex\":\n" + _FLOAT_ARM.split("\n", 1)[1]},
+    {"name": "twin-complex-rejected-like-float", "rule": "R12.6", "file": PYI_TYPES,
+     "expect": "silent", "old": _FLOAT_ARM,
+     "new": "    elif self.type in (\"float\", \"complex\"):\n"
+            "      raise ParseError(f\"Invalid type `{self.type}` in Literal[{self.value}].\")\n"},
+    {"name": "twin-literal-built-per-arm", "rule": "R12.6", "file": PYI_TYPES, "expect": "silent",
+     "old": "    if self.type in _STRING_TYPES:\n      val = self.repr_str()\n" + _FLOAT_ARM
+            + "    else:\n      val = self.value\n    return pytd.Literal(val)\n",
+     "new": "    if self.type in (\"int\", \"bool\"):\n      return pytd.Literal(self.value)\n"
+            "    if self.type not in _STRING_TYPES:\n"
+            "      raise ParseError(f\"Invalid type `{self.type}` in Literal[{self.value}].\")\n"
+            "    quoted = self.repr_str()\n    return pytd.Literal(quoted)\n"},
+    {"name": "twin-bytes-arm-split-off", "rule": "R12.6", "expect": "silent",
+     "edits": [
+         (PYI_TYPES, "    if self.type in _STRING_TYPES:\n      val = self.repr_str()\n",
+          "    if self.type in (\"str\", \"unicode\"):\n      val = self.repr_str()\n"
+          "    elif self.type == \"bytes\":\n      val = repr(self.value)\n"),
+         (PYI_TYPES, _FLOAT_ARM,
+          "    elif self.type in (\"float\", \"complex\"):\n"
+          "      raise ParseError(f\"Invalid type `{self.type}` in Literal[{self.value}].\")\n")]},
 ]
